@@ -74,7 +74,7 @@ PROPS = {
     "C04": {
         "title": "Framing violations are rejected fail-stop and never reach the application",
         "level": "fault_enumeration",
-        "rule": "part alphabet: EXHAUSTIVE enumeration of the next-frame alphabet {idle, inside a fragmented message} x role x compression negotiated x 16 opcodes x FIN x RSV1 x RSV2 x RSV3 x MASK x length class {0,1,125,126,65536,top bit} (+21 close-body classes) = 33792 cells (incl. control frames that use an extended length field for a short payload), each classified valid/violation/unspecified by an independent RFC classifier; violation => error at that frame, earlier message intact, nothing of the frame or the conformant suffix delivered or handled, 5 later reads return the same error, exactly one close frame 1002 written (optional for top-bit lengths); valid => accepted and decoded as the reference decoder says. part history: rapid-generated conformant prefix (C03 generator, optionally ending inside a message, read with abandonment) + one violating frame built by mutating a valid frame + conformant suffix; same oracle plus pongs owed for the prefix. Non-trivial = every violation/valid cell; histories with >=1 completed message or an open message.",
+        "rule": "part alphabet: EXHAUSTIVE enumeration of the next-frame alphabet {idle, inside a fragmented message} x role x compression negotiated x 16 opcodes x FIN x RSV1 x RSV2 x RSV3 x MASK x length class {0,1,125,126,65536,top bit,64-bit wrap-around} (+21 close-body classes) = 38400 cells (incl. control frames that use an extended length field for a short payload, and 64-bit lengths 2^64-n that wrap the running message length), each classified valid/violation/unspecified by an independent RFC classifier; violation => error at that frame, earlier message intact, nothing of the frame or the conformant suffix delivered or handled, 5 later reads return the same error, exactly one close frame 1002 written (optional for top-bit lengths); valid => accepted and decoded as the reference decoder says. part history: rapid-generated conformant prefix (C03 generator, optionally ending inside a message, read with abandonment) + one violating frame built by mutating a valid frame + conformant suffix; same oracle plus pongs owed for the prefix. part after-contention (testing/synctest owned schedule, -race binary): the C11 actors with a writer held in the transport so that WriteControl callers time out behind it; after every writer has returned the reader receives a frame with RSV2: exactly one close frame with status 1002 must still be written. An evaluation that failed and took >= 400 ms of wall clock is evaluated again (the library arms a one-second wall-clock deadline for automatic replies). Non-trivial = every violation/valid cell; histories with >=1 completed message or an open message; owned schedules with the write lock contended.",
         "exhaustive_quick": True,
         "exhaustive_thorough": True,
         "assumptions": TRUST + ["the alphabet uses one representative length per class and 21 close-body classes", "unspecified cells (RSV1 on control/continuation with compression, 1-byte close body, codes 1012-1014) are only checked for no-panic and stickiness"],
@@ -86,7 +86,7 @@ PROPS = {
     "C05": {
         "title": "No silent truncation: a transport fault yields whole messages, then an error",
         "level": "fault_enumeration",
-        "rule": "rapid-generated valid stream (C03 generator, both roles, compressed or not) x EVERY cut offset 0..len (exhaustive for streams <= 600 bytes, boundary+300 evenly spaced offsets above) x 8 fault behaviours {EOF, EOF with the last bytes, error, error with bytes, timeout, timeout with bytes, timeout then the transport resumes, error+bytes then resumes} x chunking x read program (incl. reads >= bufio size, abandonment) x 1..900 later calls; oracle: delivered messages are byte-identical prefixes of the sent ones, a message is reported complete only if all its wire bytes arrived (or its deflate stream is self-terminating), every message that had fully arrived before the failing transport read is delivered, partial message => non-nil error != io.EOF, an error follows, and NextReader keeps returning the same error and nothing more. Non-trivial = (case, offset, kind) with the cut inside a frame header, inside a payload or between two fragments of a message.",
+        "rule": "rapid-generated valid stream (C03 generator, both roles, compressed or not) x EVERY cut offset 0..len (exhaustive for streams <= 600 bytes, boundary+300 evenly spaced offsets above) x 10 fault behaviours {EOF, EOF with the last bytes, io.ErrUnexpectedEOF, io.ErrUnexpectedEOF with bytes, error, error with bytes, timeout, timeout with bytes, timeout then the transport resumes, error+bytes then resumes} x chunking x read program (incl. reads >= bufio size, abandonment) x 1..900 later calls; oracle: delivered messages are byte-identical prefixes of the sent ones, a message is reported complete only if all its wire bytes arrived (or its deflate stream is self-terminating), every message that had fully arrived before the failing transport read is delivered, partial message => non-nil error != io.EOF, an error follows, and NextReader keeps returning the same error and nothing more. Non-trivial = (case, offset, kind) with the cut inside a frame header, inside a payload or between two fragments of a message.",
         "assumptions": TRUST + ["fault behaviours are the legal io.Reader behaviours listed; kernel-level partial reads are modelled by the chunk plan"],
         "level_text": "Every byte offset of each generated stream is cut by every fault kind (exhaustive per stream up to 600 bytes); streams themselves are sampled.",
         "level_note": "Reference model from the independent encoder; which transport read failed is taken from the scripted transport's own accounting.",
@@ -96,7 +96,7 @@ PROPS = {
     "C06": {
         "title": "Read limit is exact, history-independent and bounds memory",
         "level": "exploration",
-        "rule": "rapid-generated (limit L in 1..300 / 125 / 126 / 1024 / 4096 / 65535 / 65536 / 10^6; 0-4 within-limit messages of wire size L, L-1, small or random, any fragmentation, pings in between, compressed or not, each read fully / partly / not at all; then optionally one over-limit message whose running sum of claimed frame lengths crosses L at frame 0..3 with a claimed length of L+1-sum, 2L, 2^31, 2^63-1 (overflowing sums) or a top-bit length, the crossing frame's payload present / partly present / absent with the transport reporting a distinctive error). Oracle: every within-limit message that is read is delivered in full; the over-limit read fails with ErrReadLimit (also when no payload byte is available), delivers <= L bytes which are a prefix of the earlier frames, later reads fail, pongs owed + exactly one close 1009 are written (optional for overflow/top-bit), and heap allocation while receiving stays below 8 MiB + 8 x bytes received - also for a frame whose claim (2^27..2^30) is WITHIN a raised limit of 2^40 but of which only a few bytes exist, read through ReadMessage or NextReader. Non-trivial = a message of wire size L or L-1 after an abandoned multi-frame predecessor, or an over-limit message with L+1 / overflow / top-bit.",
+        "rule": "rapid-generated (limit L in 1..300 / 125 / 126 / 1024 / 4096 / 65535 / 65536 / 10^6; 0-4 within-limit messages of wire size L, L-1, small or random, any fragmentation, pings in between, compressed or not (incl. compressed messages of wire size <= L that INFLATE to more than L: the limit is on the wire size, they must be delivered in full), each read fully / partly / not at all; then optionally one over-limit message whose running sum of claimed frame lengths crosses L at frame 0..3 with a claimed length of L+1-sum, 2L, 2^31, 2^63-1 (overflowing sums) or a top-bit length, the crossing frame's payload present / partly present / absent with the transport reporting a distinctive error). Oracle: every within-limit message that is read is delivered in full; the over-limit read fails with ErrReadLimit (also when no payload byte is available), delivers <= L bytes which are a prefix of the earlier frames, later reads fail, pongs owed + exactly one close 1009 are written (optional for overflow/top-bit), and heap allocation while receiving stays below 8 MiB + 8 x bytes received - also for a frame whose claim (2^27..2^30) is WITHIN a raised limit of 2^40 but of which only a few bytes exist, read through ReadMessage or NextReader. Non-trivial = a message of wire size L or L-1 after an abandoned multi-frame predecessor, or an over-limit message with L+1 / overflow / top-bit.",
         "assumptions": TRUST + ["memory is measured process-wide (runtime/metrics /gc/heap/allocs:bytes) with a generous constant, so only allocation scaling with the claimed length is detected"],
         "level_text": "Bounded random exploration over limits, histories and 64-bit length corners with a reference model of which messages are within the limit.",
         "level_note": "Streams come from the independent encoder (claimed lengths are written verbatim into hostile headers).",
@@ -116,7 +116,7 @@ PROPS = {
     "C07": {
         "title": "Untrusted network input never panics, hangs or allocates out of proportion",
         "level": "exploration",
-        "rule": "four entry points: (frames) byte strings - raw, or structured mutations (bit flips, truncation, extreme 64-bit lengths, hostile constants, spliced control headers, duplicated/deleted slices) of conformant streams from the independent encoder - fed to a Conn of either role, with/without compression and read limit - for servers optionally glued to the handshake (first k bytes already in the hijacked bufio.Reader, ReadBufferSize 0..512) - and drained with NextReader+Read or with ReadMessage until the first error; a generator class appends a header claiming 2^16..2^64-1 bytes to a conformant prefix; (dialreply) byte strings / mutated reply templates as the server's reply to Dial; (proxyreply) the same as a proxy's CONNECT reply followed by a valid 101; (headers) generated values (pool of hostile token/quoted-string/extension strings, key-shaped strings around the 24-character/16-byte boundary, mutations, raw bytes) for Connection, Upgrade, Sec-WebSocket-Version/-Key/-Protocol/-Extensions, Origin and Host passed to Upgrade, Subprotocols and IsWebSocketUpgrade both directly and through http.ReadRequest. Oracle: no panic, every call returns a value xor an error, the drain loop needs <= len/2+8 iterations, bytes delivered <= 1100 x input, heap allocation <= 16 MiB + 2 KiB x input, a 120 s watchdog reports a call that never returns. Quick = rapid generators; thorough adds four native go-fuzz campaigns (coverage guided, seeded with valid streams/replies and hostile constants). Non-trivial = the input reached protocol logic (a frame was accepted or answered / http.ReadResponse succeeded / CONNECT was parsed / net/http accepted the header values).",
+        "rule": "four entry points: (frames) byte strings - raw, or structured mutations (bit flips, truncation, extreme 64-bit lengths, hostile constants, spliced control headers, duplicated/deleted slices) of conformant streams from the independent encoder - fed to a Conn of either role, with/without compression and read limit - for servers optionally glued to the handshake (first k bytes already in the hijacked bufio.Reader, ReadBufferSize 0..512) - and drained with NextReader+Read or with ReadMessage until the first error; a generator class appends a header claiming 2^16..2^64-1 bytes to a conformant prefix; (dialreply) byte strings / mutated reply templates as the server's reply to Dial; (proxyreply) the same as a proxy's CONNECT reply followed by a valid 101 - reply templates include refusals that declare more body than they deliver (Content-Length, unterminated chunked); a reply that an independent strict parser accepts as a complete head with a status other than 200 must make Dial return an error without asking the (silent) proxy connection for another byte; (headers) generated values (pool of hostile token/quoted-string/extension strings, key-shaped strings around the 24-character/16-byte boundary, mutations, raw bytes) for Connection, Upgrade, Sec-WebSocket-Version/-Key/-Protocol/-Extensions, Origin and Host passed to Upgrade, Subprotocols and IsWebSocketUpgrade both directly and through http.ReadRequest. Oracle: no panic, every call returns a value xor an error, the drain loop needs <= len/2+8 iterations, bytes delivered <= 1100 x input, heap allocation <= 16 MiB + 2 KiB x input, a 120 s watchdog reports a call that never returns. Quick = rapid generators; thorough adds four native go-fuzz campaigns (coverage guided, seeded with valid streams/replies and hostile constants). Non-trivial = the input reached protocol logic (a frame was accepted or answered / http.ReadResponse succeeded / CONNECT was parsed / net/http accepted the header values).",
         "assumptions": TRUST + ["decompression expansion into the application's buffer is inherent to RFC 7692 and not counted; the harness drains into a fixed buffer", "the documented panic after 1000 reads on a failed connection is never provoked (3 extra reads)"],
         "level_text": "Fuzzing / random exploration: evidence of absence of crashes over generated and coverage-guided inputs, never a proof.",
         "level_note": "Transports are scripted; watchdog is wall-clock (120 s for cases that take < 10 ms).",
